@@ -398,7 +398,9 @@ def _through_files(rng, name, names, edges, pos, resnames, resids, tag, hostile)
     gen.write_itp(itp, name, atoms, bond_sections, rng=rng, decorate=hostile, extra_sections=extra)
     recs = [(int(resids[i]), resnames[i], names[i], i + 1, tuple(float('%.3f' % x) for x in pos[i]), None) for i in range(n)]
     gen.write_gro(gro, name, recs, (50.0, 50.0, 50.0))
-    return Molecule.from_files(gro, itp)
+    mol = Molecule.from_files(gro, itp)
+    object.__setattr__(mol, '_gmv_files', (gro, itp))
+    return mol
 
 
 def build_pair(rng, edges, ref_pos, tgt_pos, name='MOL', multi_res=False, files=False):
@@ -433,7 +435,32 @@ def build_pair(rng, edges, ref_pos, tgt_pos, name='MOL', multi_res=False, files=
     return refm, tgtm
 
 
+_wp_turn = [0]
+
+
 def with_positions(mol, pos):
-    c = mol.copy()
+    """Another conformation of the same molecule, as a caller may come by it: a copy (shares the topology object with
+    `mol`), a deep copy (its own topology object), or - for molecules that came from files - the same files loaded once
+    more (a separate Molecule with its own topology)."""
+    _wp_turn[0] += 1
+    how = _wp_turn[0] % 3
+    c = None
+    if how == 1:
+        try:
+            c = mol.deep_copy()
+        except Exception:  # noqa
+            c = None
+    elif how == 2:
+        files = mol.__dict__.get('_gmv_files') if hasattr(mol, '__dict__') else None
+        if files is not None:
+            from gaddlemaps.components import Molecule
+            try:
+                c = Molecule.from_files(*files)
+                if not (c == mol):
+                    c = None
+            except Exception:  # noqa
+                c = None
+    if c is None:
+        c = mol.copy()
     c.atoms_positions = np.array(pos, float)
     return c
